@@ -321,6 +321,10 @@ func (s *Store[K, V]) GetWithSecodary(key K) (V, bool, error) {
 		// load and store should be atomic
 		shard.mu.Lock()
 		defer shard.mu.Unlock()
+		// a closed cache misses, it does not keep serving from the secondary cache
+		if shard.closed {
+			return v, &NotFound{}
+		}
 		v, cost, expire, ok, err := s.secondaryCache.Get(key)
 		if err != nil {
 			return v, err
